@@ -223,10 +223,19 @@ class PathEnum(object):
                         continue
                     # already decided on this path?
                     decided = None
+                    dn, flip = d, 0
+                    while dn[0] == "un" and dn[1] == "Not":
+                        dn = dn[2]
+                        flip ^= 1
                     for (ct, cv, cn, cb) in path.conds:
-                        if ct == d:
-                            decided = cv
+                        if ct == dn and cv in (0, 1, "otherwise"):
+                            if flip and cv in (0, 1):
+                                decided = 1 - cv
+                            elif not flip:
+                                decided = cv
                     if decided is not None:
+                        if decided == 1 and [v for v, _ in arms] == [0]:
+                            decided = "otherwise"
                         nxt = t["otherwise"] if decided == "otherwise" else None
                         for v, b in arms:
                             if v == decided:
@@ -259,7 +268,12 @@ class PathEnum(object):
                                 name = self._other_variant(ty, known)
                         elif v == "otherwise" and known == [0]:
                             val = 1  # boolean true
-                        np.conds.append((d, val, name, bb))
+                        dd = d
+                        # `!x` tested: record the decision on x itself
+                        while dd[0] == "un" and dd[1] == "Not" and val in (0, 1):
+                            dd = dd[2]
+                            val = 1 - val
+                        np.conds.append((dd, val, name, bb))
                         walk(b, dict(env), np)
                     return
                 elif k == "return":
